@@ -46,6 +46,25 @@ def run(tier):
     sche, _ = rgen(wd, "gen-undo-exh", e, timeout=300, limit=None if thorough else 2500)
     v.distinct += distinct_count(sche)
     conform(v, wd, "undo-exh-mem", e, sche, invs=["TypeOK"], flush=0)
+    # every valid history of three commits (<= 2 operations each) and undos on one task: 362 k
+    # schedules; a random sample, plus a sample of the stratum random choice rarely fills:
+    # a task updated, deleted and created again inside the span that is then undone
+    e3 = rconsts(Replicas={"r1"}, Tasks={"u1"}, Props={"p"}, Vals={"a", "b"}, Times={1},
+                 MaxBatch=2, MaxEdits=3, MaxPending=6, MaxChain=1, MaxLen=10,
+                 LocalKinds={"Batch", "Undo"}, OnlyValid=True)
+    sch3, _ = rgen(wd, "gen-undo-exh3", e3, timeout=900, limit=None)
+
+    def recreates(h):
+        kinds_ = "".join(o["k"] for st in h for o in st.get("ops", []) if o["k"] != "P")
+        return "DC" in kinds_ and any(st["a"] == "Undo" for st in h)
+    rnd = random.Random(seed())
+    strat = [h for h in sch3 if recreates(h)]
+    pick = rnd.sample(sch3, min(len(sch3), 3000 if thorough else 300)) + \
+        rnd.sample(strat, min(len(strat), 2000 if thorough else 300))
+    v.distinct += distinct_count(pick)
+    v.extra["undo_exh3"] = {"all_valid_histories": len(sch3), "with_delete_create_and_undo": len(strat),
+                            "replayed": len(pick)}
+    conform(v, wd, "undo-exh3-sample-mem", e3, pick, invs=TR_INVS, flush=0)
     # all or nothing for the undo transaction
     with_undo = [h for h in sch if any(s["a"] == "Undo" for s in h)]
     sweep = storage_fault_sweep(with_undo[:10 if thorough else 3], "Undo", 16, per=None)
